@@ -80,6 +80,20 @@ def compare_traces(ra, rb, props, oracle, world_a, client=None, compare_draws=Tr
         r = ra.recipes[ka]
         cell = oracles.make_cell(world_a, pre_a, r, res_a.addressed)
         cell["pre_class"] = "-"
+        if r["do"] in ("kraus", "povm", "fault"):
+            # channel / operator-set specs are resolved at the targets' *current* dimensions; if the
+            # cutoffs differ between the twins the two requests are different channels: stop comparing
+            da = [pre_a.sub[n]["dims"] for n in r.get("on", []) if n in pre_a.sub]
+            db = [pre_b.sub[n]["dims"] for n in r.get("on", []) if n in pre_b.sub]
+            if da != db:
+                return None, None
+        if "skipped" in (res_a.status, res_b.status) and res_a.status != res_b.status:
+            # applicability of a request may depend on the representation level (expand / contract
+            # steps); the physical comparison below still applies
+            d = snapshot_diff(post_a, post_b, client=client, tol=tol)
+            if d is not None:
+                return Violation(props, oracle, "twin-state", cell, f"sid {sid}: {d}"), sid
+            continue
         if _status(res_a) != _status(res_b):
             return (
                 Violation(props, oracle, "twin-status", cell, f"sid {sid}: {res_a.status}/{res_a.exc} vs {res_b.status}/{res_b.exc}"),
